@@ -740,9 +740,9 @@ func (e *env) runProgram(idx int, p *Program) (out outcome) {
 	}
 	x.logStart = u.Log.Len()
 	x.plan = &faultPlan{u: u, mock: cfg.backend == uni.Mock, seed: p.Seed, cleanupPct: p.CleanupErrPct, otherPct: p.OtherErrPct, topo: p.TopoPct,
-		maxInjected: 10, maxTopo: 3, occ: map[string]int{}, inj: map[string]int{}}
+		maxInjected: 16, maxTopo: 3, occ: map[string]int{}, inj: map[string]int{}, perCmd: map[tikvrpc.CmdType]int{}}
 	x.cplan = &contPlan{gates: map[uint64]*gate{}, watch: map[uint64]*watch{},
-		faults: &faultPlan{u: u, mock: cfg.backend == uni.Mock, seed: p.Seed ^ 0x5151, cleanupPct: p.CleanupErrPct / 3, maxInjected: 4, occ: map[string]int{}, inj: map[string]int{}}}
+		faults: &faultPlan{u: u, mock: cfg.backend == uni.Mock, seed: p.Seed ^ 0x5151, cleanupPct: p.CleanupErrPct / 3, maxInjected: 4, occ: map[string]int{}, inj: map[string]int{}, perCmd: map[tikvrpc.CmdType]int{}}}
 	e.cp.Store(x.cplan)
 
 	txn, err := e.subj.Begin()
@@ -815,7 +815,7 @@ func (e *env) runProgram(idx int, p *Program) (out outcome) {
 			isAsync, is1PC = c.IsAsyncCommit(), c.IsOnePC()
 		}
 	}()
-	e.sp.Store(nil)
+	// the fault plans stay installed: the background work (secondary commits, clean-up) is subject to them too
 
 	// ---- oracle
 	owners := map[uint64]string{x.ts: "subject"}
@@ -1124,7 +1124,7 @@ func TestVerifC06(t *testing.T) {
 		if only := os.Getenv("VERIF_C06_ONLY"); only != "" && !strings.Contains(c.String(), only) {
 			continue
 		}
-		n := vrep.Pick(40, 400)
+		n := vrep.Pick(70, 600)
 		if c.pess {
 			n = vrep.Pick(110, 1200)
 		}
@@ -1145,10 +1145,10 @@ func TestVerifC06(t *testing.T) {
 	r.Floor("commit_failed_definitely", 10)
 	r.Floor("aggressive_locking_sequences", 40)
 	r.Floor("aggressive:agg-retry", 20)
-	r.Floor("cleanup_rpcs_answered_with_region_error", 40)
-	r.Floor("cleanup_rpcs_answered_with_region_error:PessimisticRollback", 10)
-	r.Floor("cleanup_rpcs_answered_with_region_error:BatchRollback", 5)
-	r.Floor("cleanup_rpcs_answered_with_region_error:CommitSecondary", 5)
+	r.Floor("cleanup_rpcs_answered_with_region_error", 400)
+	r.Floor("cleanup_rpcs_answered_with_region_error:PessimisticRollback", 200)
+	r.Floor("cleanup_rpcs_answered_with_region_error:BatchRollback", 60)
+	r.Floor("cleanup_rpcs_answered_with_region_error:CommitSecondary", 40)
 	r.Floor("held_locks_seen_by_the_lock_scan", 30)
 	r.Floor("committed_2pc", 50)
 	r.Floor("committed_async", 15)
